@@ -1942,8 +1942,8 @@ static void MPSreadBounds(MPSInput& mps, LPColSetBase<R>& cset, const NameSet& c
             else
                val = atof(mps.field4());
 
-            // ILOG extension (Integer Bound)
-            if(mps.field1()[1] == 'I')
+            // ILOG extension (Integer Bound): LI and UI, but not MI
+            if((*mps.field1() == 'L' || *mps.field1() == 'U') && mps.field1()[1] == 'I')
             {
                if(intvars != nullptr)
                   intvars->addIdx(idx);
